@@ -97,9 +97,14 @@ def opt_combinator_handler(mir):
         opt, clo = argv[0], argv[1]
         ctype = re.search(r"(\{closure@[^}]*\})>?$", fn.rstrip(">"))
         cm = re.findall(r"\{closure@[^}]*\}", fn)
+        fnitem = None
         if not cm:
-            raise Inconclusive("closure type not found in %s" % fn)
-        body = closure_by_type(mir, cm[-1])
+            fm = re.search(r"\{([\w:<>, ]+)\}>$", fn)
+            if not fm:
+                raise Inconclusive("closure type not found in %s" % fn)
+            last = re.sub(r"::<.*", "", fm.group(1)).split("::")[-1]
+            fnitem = mir.find(r"(^|::)%s$" % re.escape(last))
+        body = fnitem or closure_by_type(mir, cm[-1])
         forks = []
         some_arm = p.clone()
         some_arm.pc.append(disc(opt) == 1)
@@ -107,9 +112,9 @@ def opt_combinator_handler(mir):
         none_arm.pc.append(disc(opt) == 0)
         out = []
         if kind == "or_else":
-            run_on, keep_on, call_args = none_arm, some_arm, [clo]
+            run_on, keep_on, call_args = none_arm, some_arm, ([] if fnitem else [clo])
         else:
-            run_on, keep_on, call_args = some_arm, none_arm, [clo, proj(opt, "Some.0")]
+            run_on, keep_on, call_args = some_arm, none_arm, ([proj(opt, "Some.0")] if fnitem else [clo, proj(opt, "Some.0")])
         if ex.feasible(keep_on):
             if kind == "or_else":
                 out.append((keep_on.pc[-1], opt))
@@ -123,8 +128,13 @@ def opt_combinator_handler(mir):
             q0.env = {}
             ex.run(body, q0, call_args, lambda qp, how, value: results.append((qp, how, value)))
             for qp, how, value in results:
+                if how in ("dead", "unreachable"):
+                    continue
                 if how != "return":
-                    raise Inconclusive("closure %s ended with %s" % (body.name, how))
+                    # the closure ended the process (e.g. bailed out): that fork ends here
+                    extra = qp.pc[len(p.pc):]
+                    out.append((z3.And(extra) if extra else z3.BoolVal(True), ("__done__", how, value), qp.trace[len(p.trace):]))
+                    continue
                 if kind == "map":
                     v = fresh("some")
                     qp.pc.append(disc(v) == 1)
@@ -441,7 +451,7 @@ class MainModel:
             g["noargs"] = r
             p.pc.append(z3.Or(asint(r) == 0, asint(r) == 1))
             return r
-        if re.search(r" as Iterator>::next$", fn) and "InputPaths" in fn:
+        if re.search(r"^<(&mut )?(InputPaths<.*>|[A-Z]\w?) as Iterator>::next$", fn):  # (a generic wrapper sees the path iterator as `I`)
             it = argv[0]
             n = g.get("next_calls", 0)
             g["next_calls"] = n + 1
@@ -464,9 +474,8 @@ class MainModel:
                 return res
             path = proj(res, "Some.0")
             p.pc.append(z3.Or(disc(path) == 0, disc(path) == 1))
-            q = p  # fork via return list
             g["cur_path"] = path
-            return [(disc(res) == 1, res), (disc(res) == 0, res)]
+            return [(disc(res) == 1, res, [("next", path)]), (disc(res) == 0, res, [("next_end",)])]
         if re.search(r"(^|::)extension_format$", fn):
             return self.extfmt(argv[0])
         if re.search(r"File::open::<", fn):
@@ -625,6 +634,13 @@ def check_main_path(ex, mm, rep, p, how, value, stats):
         rep.bad("K5", "at exit(1) the complete output of every finished input has been flushed", {"kind": "flush_exit1", "pending": pending})
     if how == "return" and pending:
         rep.bad("K5", "at a successful exit every byte of output has been flushed explicitly (BufWriter's drop ignores errors)", {"kind": "flush_return", "pending": pending})
+    # ---- K5 (C15): at exit(1) every input that precedes the failing one has been translated
+    if code == 1 and not parse_err:
+        pulled = len([e for e in tr if e[0] == "next"])
+        done = len([e for e in translates if ex.valid(p, disc(e[3]) == 0)[0]])
+        if pulled and done < pulled - 1:
+            rep.bad("K5", "when an input fails, every input given before it has already been translated and flushed (inputs are taken up strictly one after the other)",
+                    {"kind": "flush_exit1", "inputs_taken": pulled, "translated": done})
     # ---- K6 wiring
     for e in tr:
         if e[0] == "translator_new":
